@@ -67,7 +67,12 @@ class Reporter:
 
     def floor(self, rule, name, measured):
         """fail closed when fewer instances than confirmed by hand are found"""
-        want = self.expect.get('%s.%s' % (rule, name))
+        want = self.expect.get('%s.%s' % (rule, name + self.suffix)) if self.suffix else None
+        if want is None:
+            want = self.expect.get('%s.%s' % (rule, name))
+        import os, sys
+        if os.environ.get('VERIF_SHOW_FLOORS'):
+            sys.stderr.write('FLOOR %s %s.%s measured=%d floor=%s\n' % (self.prop, rule, name + self.suffix, measured, want))
         if want is None:
             self.unproven(rule, 'floor:' + name, '-', 'no frozen floor for %s.%s (measured %d)' % (rule, name, measured))
         elif measured < want:
